@@ -1,33 +1,117 @@
 //! C01: HashMap equals a sequential key-value map for every history and hasher.
 
-use crate::explore::Limits;
+use crate::explore::{Limits, Mech};
 use crate::keys::*;
 use crate::mapsut::*;
 use crate::report::{BfsConfig, Config, Tier};
 
-fn cfg(plan: Plan, universe: u8, tier: Tier) -> Box<dyn Config> {
+fn lim(tier: Tier, depth: Option<u32>) -> Limits {
+    Limits {
+        max_depth: depth,
+        max_wall_s: if tier == Tier::Quick { 40.0 } else { 1500.0 },
+        max_states: if tier == Tier::Quick { 400_000 } else { 6_000_000 },
+        ..Default::default()
+    }
+}
+
+fn closed(plan: Plan, universe: u8, tier: Tier) -> Box<dyn Config> {
     let mut c = MapCfg::new(plan, universe);
     c.max_buckets = if super::width() == 16 { 64 } else { 32 };
     let label = c.label();
-    let lim = Limits {
-        max_wall_s: if tier == Tier::Quick { 40.0 } else { 900.0 },
-        max_states: if tier == Tier::Quick { 400_000 } else { 6_000_000 },
-        ..Default::default()
-    };
-    Box::new(BfsConfig::new(label, MapHarness::<TKey, TVal>::new(c), lim))
+    Box::new(BfsConfig::new(label, MapHarness::<TKey, TVal>::new(c), lim(tier, None)))
+}
+
+/// Closed search with the state-changing core alphabet (reaches deeper tables).
+fn closed_core(plan: Plan, universe: u8, tier: Tier, need_inplace: bool) -> Box<dyn Config> {
+    let mut c = MapCfg::new(plan, universe);
+    c.max_buckets = if super::width() == 16 { 64 } else { 32 };
+    c.alphabet = Alphabet::core();
+    let label = format!("{}-core", c.label());
+    let mut b = BfsConfig::new(label, MapHarness::<TKey, TVal>::new(c), lim(tier, None));
+    if need_inplace {
+        b.post = Some(Box::new(|_o, stats| {
+            if stats.get(Mech::RehashInPlace) == 0 || stats.get(Mech::TombstoneReused) == 0 {
+                return Err("anti-vacuity: no in-place rehash / tombstone reuse in this space".into());
+            }
+            Ok(serde_json::json!({}))
+        }));
+    }
+    Box::new(b)
+}
+
+/// Scripted deep states (full windows, full load, tombstone-saturated), then a
+/// depth-bounded search with the given alphabet.
+pub fn seeds_for(width: usize) -> Vec<Vec<MapOp>> {
+    let (w, fill) = if width == 16 { (16u8, 28u8) } else { (8u8, 14u8) };
+    let ins = |n: u8| (0..n).map(MapOp::Insert).collect::<Vec<_>>();
+    let mut v = vec![ins(w + 1), ins(fill)];
+    for removed in [1u8, w / 2, fill / 2, fill - 8, fill - 1] {
+        let mut h = ins(fill);
+        h.extend((0..removed).map(MapOp::Remove));
+        v.push(h);
+    }
+    // suffix removal, every-other removal
+    let mut h = ins(fill);
+    h.extend((fill / 2..fill).map(MapOp::Remove));
+    v.push(h);
+    let mut h = ins(fill);
+    h.extend((0..fill).filter(|i| i % 2 == 1).map(MapOp::Remove));
+    v.push(h);
+    v
+}
+
+fn seeded(tier: Tier, full: bool, depth: u32) -> Box<dyn Config> {
+    let w = super::width();
+    let mut c = MapCfg::new(Plan::Zero, if w == 16 { 30 } else { 16 });
+    c.max_buckets = if w == 16 { 64 } else { 32 };
+    if !full {
+        c.alphabet = Alphabet::core();
+    }
+    let label = format!("{}-seeded-{}-d{}", c.label(), if full { "full" } else { "core" }, depth);
+    let mut b = BfsConfig::new(label, MapHarness::<TKey, TVal>::new(c), lim(tier, Some(depth)));
+    b.seeds = seeds_for(w);
+    b.post = Some(Box::new(|_o, stats| {
+        if stats.get(Mech::RehashInPlace) == 0 || stats.get(Mech::TombstoneCreated) == 0 {
+            return Err("anti-vacuity: the seeded neighbourhoods contain no in-place rehash / tombstone".into());
+        }
+        Ok(serde_json::json!({}))
+    }));
+    Box::new(b)
 }
 
 pub fn configs(tier: Tier) -> Vec<Box<dyn Config>> {
     let sse2 = super::width() == 16;
+    let q = tier == Tier::Quick;
     let mut v: Vec<Box<dyn Config>> = Vec::new();
-    match tier {
-        Tier::Quick => {
-            v.push(cfg(Plan::Zero, if sse2 { 13 } else { 10 }, tier));
-            v.push(cfg(Plan::Seq, 5, tier));
+    if q {
+        v.push(closed(Plan::Zero, if sse2 { 12 } else { 11 }, tier));
+        v.push(closed(Plan::Seq, 5, tier));
+        v.push(closed(Plan::Max, if sse2 { 7 } else { 6 }, tier));
+        v.push(closed(Plan::Last, 5, tier));
+        v.push(closed(Plan::Cluster(2), 6, tier));
+        v.push(closed(Plan::Tag, 4, tier));
+        v.push(closed(Plan::Mix, 4, tier));
+        v.push(closed(Plan::Adv(0), 4, tier));
+        v.push(seeded(tier, true, 2));
+        v.push(seeded(tier, false, 3));
+        if !sse2 {
+            v.push(closed_core(Plan::Zero, 12, tier, true));
         }
-        Tier::Thorough => {
-            v.push(cfg(Plan::Zero, if sse2 { 18 } else { 14 }, tier));
+    } else {
+        v.push(closed(Plan::Zero, if sse2 { 15 } else { 13 }, tier));
+        v.push(closed_core(Plan::Zero, if sse2 { 18 } else { 16 }, tier, true));
+        v.push(closed(Plan::Max, if sse2 { 13 } else { 11 }, tier));
+        v.push(closed(Plan::Last, 7, tier));
+        v.push(closed(Plan::Cluster(2), if sse2 { 10 } else { 9 }, tier));
+        v.push(closed(Plan::Cluster(3), 8, tier));
+        for p in [Plan::Seq, Plan::Mix, Plan::Tag] {
+            v.push(closed(p, 6, tier));
         }
+        for g in 0..ADV_GRID.len() as u8 {
+            v.push(closed(Plan::Adv(g), 5, tier));
+        }
+        v.push(seeded(tier, true, 2));
+        v.push(seeded(tier, false, 4));
     }
     v
 }
